@@ -424,7 +424,11 @@ func explore(p *program, cfg *Config, entry *ssa.Function) (*runResult, error) {
 					rr.ReplayPaths = append(rr.ReplayPaths, res)
 				}
 				if cfg.Verbose {
-					fmt.Fprintf(os.Stderr, "path %d %v -> %s %s\n", rr.Paths, res.Prefix, res.Outcome, firstLine(res.Detail))
+					det := firstLine(res.Detail)
+					if res.Outcome == "engine" {
+						det = res.Detail
+					}
+					fmt.Fprintf(os.Stderr, "path %d %v -> %s %s\n", rr.Paths, res.Prefix, res.Outcome, det)
 				}
 				mu.Unlock()
 				cond.Broadcast()
